@@ -44,6 +44,7 @@ import (
 	"net"
 	"net/http"
 	"net/http/httptest"
+	"net/url"
 	"os"
 	"os/exec"
 	"path/filepath"
@@ -97,6 +98,86 @@ type target struct {
 	steps []step
 	reqs  int
 	late  int // stalled requests the client did not give up within the configured response-header-timeout + slack
+	rt    *redirTracker
+}
+
+// redirTracker: what the target sees of redirect chains. Every Location the target hands out (except the "pure" kind)
+// carries a hop counter ?h=<k>: a request with h=k was made after k redirects of one chain were followed.
+type redirTracker struct {
+	mu      sync.Mutex
+	max     int         // largest hop counter any request carried
+	pure    map[int]int // requests for steps that redirect to their own, unchanged, URI
+	shots   int         // how often one step can be shot in this run
+	gone    bool
+	runaway chan struct{} // closed when a chain went past runawayHops and the client is still following
+}
+
+const runawayHops = 1000
+
+func newRedirTracker() *redirTracker {
+	return &redirTracker{pure: map[int]int{}, shots: 1, runaway: make(chan struct{})}
+}
+
+func (rt *redirTracker) flag() {
+	if !rt.gone {
+		rt.gone = true
+		close(rt.runaway)
+	}
+}
+
+// note: every request the target receives tells how many redirects of its chain had been followed
+func (rt *redirTracker) note(u *url.URL) {
+	h, _ := strconv.Atoi(u.Query().Get("h"))
+	rt.mu.Lock()
+	defer rt.mu.Unlock()
+	if h > rt.max {
+		rt.max = h
+	}
+	if h >= runawayHops {
+		rt.flag()
+	}
+}
+
+func (rt *redirTracker) hops() string {
+	rt.mu.Lock()
+	defer rt.mu.Unlock()
+	if rt.gone {
+		return "runaway"
+	}
+	return strconv.Itoa(rt.max)
+}
+
+// redirAnswer: status and Location of a step with behaviour redir:<status>:<kind>; the target never ends a chain by itself.
+//
+//	kind = s<j> (relative URI of step j) | a<j> (absolute URL of step j) | p (the request's own URI, unchanged)
+//	     | n (no Location header) | b (a Location that does not parse) | d (a URL nobody listens on)
+func (rt *redirTracker) redirAnswer(beh string, idx int, u *url.URL, self string) (status int, loc string) {
+	f := strings.SplitN(beh, ":", 3)
+	if len(f) < 3 || f[2] == "" {
+		return 500, ""
+	}
+	status, _ = strconv.Atoi(f[1])
+	h, _ := strconv.Atoi(u.Query().Get("h"))
+	rt.mu.Lock()
+	defer rt.mu.Unlock()
+	kind, arg := f[2][0], f[2][1:]
+	switch kind {
+	case 's':
+		return status, fmt.Sprintf("/b/%s?h=%d", arg, h+1)
+	case 'a':
+		return status, fmt.Sprintf("%s/b/%s?h=%d", self, arg, h+1)
+	case 'p':
+		rt.pure[idx]++
+		if rt.pure[idx] > runawayHops*rt.shots {
+			rt.flag()
+		}
+		return status, u.RequestURI()
+	case 'b':
+		return status, "http://%zz/x"
+	case 'd':
+		return status, self[:strings.Index(self, "://")] + "://127.0.0.1:1/dead"
+	}
+	return status, ""
 }
 
 const stallSlack = 3 * time.Second // on top of the gun's response-header-timeout (1 s)
@@ -110,7 +191,7 @@ func newTarget() *target {
 }
 
 func newTargetOn(ln net.Listener) *target {
-	t := &target{ln: ln}
+	t := &target{ln: ln, rt: newRedirTracker()}
 	go func() {
 		for {
 			c, err := ln.Accept()
@@ -141,6 +222,7 @@ func (t *target) serveReader(c net.Conn, br *bufio.Reader) {
 			seg, _, _ := strings.Cut(req.URL.Path[3:], "/")
 			idx, _ = strconv.Atoi(seg)
 		}
+		t.rt.note(req.URL)
 		t.mu.Lock()
 		t.reqs++
 		var s step
@@ -162,6 +244,18 @@ func (t *target) serveReader(c net.Conn, br *bufio.Reader) {
 				t.mu.Unlock()
 			}
 			return
+		}
+		if strings.HasPrefix(s.beh, "redir:") {
+			status, loc := t.rt.redirAnswer(s.beh, idx, req.URL, "http://"+c.LocalAddr().String())
+			extra := ""
+			if s.tok != "" {
+				extra = "X-Token: " + s.tok + "\r\n"
+			}
+			if loc != "" {
+				extra += "Location: " + loc + "\r\n"
+			}
+			_, _ = c.Write([]byte(head(status, extra, len(s.body)) + string(s.body)))
+			continue
 		}
 		if !respond(c, s) {
 			return
@@ -312,7 +406,7 @@ func newTunnelTarget(steps []step) *target {
 	if err != nil {
 		panic(err)
 	}
-	t := &target{ln: ln, steps: steps}
+	t := &target{ln: ln, steps: steps, rt: newRedirTracker()}
 	go func() {
 		for k := 0; ; k++ {
 			c, err := ln.Accept()
@@ -330,7 +424,7 @@ func newTunnelTarget(steps []step) *target {
 // (one instance, keep-alives disabled): a "tlsalert" step makes the server fail that handshake, which the
 // client sees as a TLS alert ("remote error: tls: internal error").
 
-func newH2Target(steps []step, withH2 bool) *httptest.Server {
+func newH2Target(steps []step, withH2 bool, rt *redirTracker) *httptest.Server {
 	var mu sync.Mutex
 	handshakes := 0
 	srv := httptest.NewUnstartedServer(http.HandlerFunc(func(w http.ResponseWriter, r *http.Request) {
@@ -343,8 +437,18 @@ func newH2Target(steps []step, withH2 bool) *httptest.Server {
 		if idx >= 0 && idx < len(steps) {
 			s = steps[idx]
 		}
+		rt.note(r.URL)
 		if s.tok != "" {
 			w.Header().Set("X-Token", s.tok)
+		}
+		if strings.HasPrefix(s.beh, "redir:") {
+			status, loc := rt.redirAnswer(s.beh, idx, r.URL, "https://"+r.Context().Value(http.LocalAddrContextKey).(net.Addr).String())
+			if loc != "" {
+				w.Header().Set("Location", loc)
+			}
+			w.WriteHeader(status)
+			_, _ = w.Write(s.body)
+			return
 		}
 		if v, ok := strings.CutPrefix(s.beh, "h2lie:"); ok { // announces v bytes, sends the body bytes, resets the stream
 			w.Header().Set("Content-Length", v)
@@ -530,13 +634,13 @@ func runEngine(t *tokens) string {
 		case err := <-done:
 			res := strings.TrimSpace(out.String())
 			if err != nil || !strings.HasPrefix(res, "run=") {
-				return "run=crashed timely=1 n=0"
+				return "run=crashed timely=1 hops=0 n=0"
 			}
 			if strings.HasPrefix(res, "run=harness-port-lost") && portRetries < 3 {
 				portRetries++ // another process took the reserved port between the two listens: not an observation
 				return runEngine(t)
 			}
-			if strings.HasPrefix(res, "run=hang") && os.Getenv("HC19_RETRIED") == "" {
+			if strings.HasPrefix(res, "run=hang") && !strings.Contains(res, "hops=runaway") && os.Getenv("HC19_RETRIED") == "" {
 				// same rule as for in-process runs: the guard is a wall-clock bound, one repetition
 				_ = os.Setenv("HC19_RETRIED", "1")
 				defer os.Unsetenv("HC19_RETRIED")
@@ -546,7 +650,7 @@ func runEngine(t *tokens) string {
 			return res
 		case <-time.After(120 * time.Second):
 			_ = cmd.Process.Kill()
-			return "run=hang timely=1 n=0"
+			return "run=hang timely=1 hops=0 n=0"
 		}
 	}
 	start := t.p
@@ -573,6 +677,9 @@ func needsChild(f []string) bool {
 	if f[0] == "connect" || f[3] == "3" || f[3] == "4" {
 		return true
 	}
+	if len(f) > 4 && strings.HasPrefix(f[4], "r1") {
+		return true // following redirects: a chain that never ends is observed as a hang, and the process is then given up
+	}
 	for _, tok := range f {
 		for _, pre := range []string{"lielen:", "h2lie:"} {
 			if v, ok := strings.CutPrefix(tok, pre); ok && len(v) >= 10 {
@@ -594,6 +701,10 @@ func runEngineOnce(t *tokens) string {
 	mode := t.next()
 	refused := mode == "1"
 	opts := t.next()
+	redirect := false
+	if strings.HasPrefix(opts, "r") && len(opts) > 2 { // r<0|1> in front of the other options: gun option `redirect`
+		redirect, opts = opts[1] == '1', opts[2:]
+	}
 	iters := t.num()
 	var steps []step
 	for n := t.num(); n > 0; n-- {
@@ -611,8 +722,9 @@ func runEngineOnce(t *tokens) string {
 	}
 	var addr string
 	var rawTarget *target
+	rt := newRedirTracker()
 	if gun == "http2" {
-		srv := newH2Target(steps, mode != "2")
+		srv := newH2Target(steps, mode != "2", rt)
 		addr = srv.Listener.Addr().String()
 		if refused {
 			srv.Close()
@@ -629,7 +741,7 @@ func runEngineOnce(t *tokens) string {
 			if err != nil {
 				panic(err)
 			}
-			tg = &target{ln: ln, steps: steps}
+			tg = &target{ln: ln, steps: steps, rt: newRedirTracker()}
 			_ = ln.Close()
 		} else {
 			tg = newTarget()
@@ -638,6 +750,7 @@ func runEngineOnce(t *tokens) string {
 			tg.mu.Unlock()
 		}
 		rawTarget = tg
+		rt = tg.rt
 		addr = tg.ln.Addr().String()
 		if mode == "3" || mode == "4" {
 			_, port, _ := net.SplitHostPort(addr)
@@ -688,6 +801,7 @@ func runEngineOnce(t *tokens) string {
 			"disable-keep-alives":     !ka,
 			"response-header-timeout": "1s",
 			"dial":                    map[string]any{"timeout": "1s"},
+			"redirect":                redirect,
 		}, opts, answPath),
 		"rps-per-instance": false,
 		"rps":              []any{map[string]any{"type": "once", "times": times}},
@@ -717,6 +831,7 @@ func runEngineOnce(t *tokens) string {
 		tg.steps = steps
 		tg.mu.Unlock()
 		rawTarget = tg
+		rt = tg.rt
 		defer ln.Close()
 	}
 	ag := &recAggr{}
@@ -732,8 +847,19 @@ func runEngineOnce(t *tokens) string {
 	go func() { done <- eng.Run(ctx) }()
 	var runErr error
 	hang := false
+	rt.mu.Lock()
+	rt.shots = max(iters, 1) * max(inst, 1)
+	rt.mu.Unlock()
 	select {
 	case runErr = <-done:
+	case <-rt.runaway:
+		// the target has answered one chain with runawayHops redirects and the gun goes on following (the target goes
+		// on redirecting): the shot gets 5 more seconds to come back
+		select {
+		case runErr = <-done:
+		case <-time.After(5 * time.Second):
+			hang = true
+		}
 	case <-time.After(40 * time.Second):
 		hang = true
 	}
@@ -764,7 +890,7 @@ func runEngineOnce(t *tokens) string {
 		timely = rawTarget.late == 0
 		rawTarget.mu.Unlock()
 	}
-	out := fmt.Sprintf("run=%s timely=%s n=%d", run, vh.B(timely), len(ss))
+	out := fmt.Sprintf("run=%s timely=%s hops=%s n=%d", run, vh.B(timely), rt.hops(), len(ss))
 	if len(ss) > 0 {
 		out += " " + strings.Join(ss, " ")
 	}
